@@ -2,6 +2,7 @@ package main
 
 import (
 	"bytes"
+	"encoding/binary"
 	"fmt"
 	"math/rand"
 	"strings"
@@ -101,6 +102,14 @@ func (cd *chunkDiscipline) check(k string, vl int, log []fakemc.Req) string {
 		}
 		if len(c.ValHead) < 16 || len(meta.ValHead) < 40 || !bytes.Equal(c.ValHead[:16], meta.ValHead[24:40]) {
 			return "chunk token differs from the metadata token"
+		}
+	}
+	if len(meta.ValHead) >= 12 {
+		if n := int(binary.BigEndian.Uint32(meta.ValHead[8:12])); n != len(chunks) {
+			return "chunk count recorded in the metadata differs from the chunks written"
+		}
+		if l := int(binary.BigEndian.Uint32(meta.ValHead[0:4])); l != vl {
+			return "value length recorded in the metadata differs from the value written"
 		}
 	}
 	if len(chunks) == 0 {
